@@ -1001,6 +1001,7 @@ class IntermediateCodeGen(AbstractCodeGen):
         self._out.clear()
         self._moduleIdentityOid = None
         self._moduleRevision = None
+        self.fakeidx = self.__class__.fakeidx
         self._enterpriseOid = None
         self._oids = set()
         self._complianceOids = []
